@@ -83,8 +83,8 @@ Inductive node :=
 Definition macro_void : list bytes := Eval vm_compute in map bs
   ["area"; "base"; "br"; "col"; "embed"; "hr"; "img"; "input"; "link"; "meta"; "param"; "source";
    "track"; "wbr"]%string.
-(** elements whose text children the inert path does not escape *)
-Definition macro_raw : list bytes := Eval vm_compute in map bs ["script"; "style"; "textarea"; "noscript"]%string.
+(** elements whose text children the inert path does not escape ([escapes_children]) *)
+Definition macro_raw : list bytes := Eval vm_compute in map bs ["script"; "style"; "noscript"]%string.
 Definition macro_svg : list bytes := Eval vm_compute in map bs
   ["animate"; "animateMotion"; "animateTransform"; "circle"; "clipPath"; "defs"; "desc"; "discard";
    "ellipse"; "feBlend"; "feColorMatrix"; "feComponentTransfer"; "feComposite"; "feConvolveMatrix";
@@ -112,6 +112,7 @@ Definition tachys_void : list bytes := Eval vm_compute in map bs
 (** ESCAPE_CHILDREN = false *)
 Definition tachys_raw : list bytes := Eval vm_compute in map bs ["noscript"; "script"; "style"; "textarea"]%string.
 
+Definition k_textarea : bytes := Eval vm_compute in bs "textarea".
 Definition k_class : bytes := Eval vm_compute in bs "class".
 Definition k_style : bytes := Eval vm_compute in bs "style".
 
@@ -261,6 +262,10 @@ Definition thread {A} (f : position -> A -> bytes * position)
                 let '(t, p') := go p r in (h ++ t, p')
     end.
 
+(** [escapes_content_as_text]: the children of <textarea> are rendered with escape = false
+    and the result is escaped as a whole *)
+Definition b_whole (tag : bytes) : bool := negb (b_escape tag) && beq tag k_textarea.
+
 (** [node_to_tokens] followed by [to_html_with_buf] of what it built.
     [io] = inert-HTML optimisation enabled ([view!]; false for [template!] and for the
     "builder path" of the theorems); [top] = [top_level]. *)
@@ -274,7 +279,9 @@ Fixpoint r_node (io top escape : bool) (pos : position) (n : node) {struct n} : 
       else
         let body :=
           if mem tag macro_void then []
-          else fst (thread (fun pos x => r_node io false (b_escape tag) pos x) PFirst ch) in
+          else
+            let raw := fst (thread (fun pos x => r_node io false (b_escape tag) pos x) PFirst ch) in
+            if b_whole tag then enc_text raw else raw in
         ([60] ++ tag ++ print_attrs (b_attr_list attrs) ++ [62]
          ++ (if b_void tag then [] else body ++ [60; 47] ++ tag ++ [62]),
          PNext)
@@ -283,8 +290,19 @@ Fixpoint r_node (io top escape : bool) (pos : position) (n : node) {struct n} : 
 Definition r_list (io top escape : bool) (pos : position) (l : list node) : bytes * position :=
   thread (fun pos x => r_node io top escape pos x) pos l.
 
-(** [render_view] + [to_html()]: 0 nodes = (), 1 node = that node at top level, more = a fragment *)
-Definition view_html (io : bool) (t : list node) : bytes := fst (r_list io true true PFirst t).
+(** does [node_to_tokens] return [Some] for this node? (empty literals and fragments without
+    such a node yield no tokens) *)
+Fixpoint has_tokens (n : node) : bool :=
+  match n with
+  | NText s => negb (is_nil s)
+  | NBlock _ | NElem _ _ _ => true
+  | NFrag ch => existsb has_tokens ch
+  end.
+
+(** [render_view] + [to_html()]: 1 node = that node at top level, more = a fragment; if nothing
+    yields tokens the view is [()], which renders as a lone marker (view/tuples.rs) *)
+Definition view_html (io : bool) (t : list node) : bytes :=
+  if existsb has_tokens t then fst (r_list io true true PFirst t) else marker.
 (** the builder path alone: the inert optimisation disabled ([template!], or no eligible subtree) *)
 Definition builder_html (t : list node) : bytes := view_html false t.
 
